@@ -22,8 +22,12 @@ class RecTransport:
     def __init__(self) -> None:
         self.writes: list[bytes] = []
         self.closed = False
+        self.fail_next: Exception | None = None  # the next write raises (a peer that went away)
 
     def write(self, data: Any) -> None:
+        if self.fail_next is not None:
+            err, self.fail_next = self.fail_next, None
+            raise err
         self.writes.append(bytes(data))
 
     def close(self) -> None:
@@ -210,6 +214,37 @@ def run(tier: str, seed: int) -> Result:
             for b in small + big:
                 check_noise(res, c, [a, b], hdn, trdn, devd)
         DEBUG[0] = False
+        # several sessions in one process, one of which suffers a failed write: every other session's next writes must be untouched
+        for fail_exc in (OSError(32, "Broken pipe"), RuntimeError("closed"), ConnectionResetError(104, "reset")):
+            sess_n = [noise_helper(f"x{i}") for i in range(3)]
+            sess_p = [plain_helper() for _ in range(2)]
+            batch = [(5, filler(40, "m1")), (128, filler(200, "m2"))]
+            for rnd in range(3):
+                for i, (hx, trx, devx) in enumerate(sess_n):
+                    if rnd == 1 and i == 1:
+                        trx.fail_next = fail_exc
+                        try:
+                            hx.write_packets(batch, False)
+                        except Exception:  # noqa: BLE001
+                            pass  # the failing session's own fate is C08/C09's subject
+                        continue
+                    if rnd >= 1 and i == 1:
+                        continue  # that session is dead
+                    check_noise(res, c, batch, hx, trx, devx)
+                for i, (hp, trp) in enumerate(sess_p):
+                    if rnd == 1 and i == 0:
+                        trp.fail_next = fail_exc
+                        try:
+                            hp.write_packets(batch, False)
+                        except Exception:  # noqa: BLE001
+                            pass
+                        continue
+                    if rnd >= 1 and i == 0:
+                        continue
+                    check_plain(res, c, batch, hp, trp)
+            # a session opened after the failure
+            hx, trx, devx = noise_helper("late")
+            check_noise(res, c, batch, hx, trx, devx)
         # ---------------- (a) noise helper ----------------------------------------------------------
         hn, trn, dev = noise_helper("a")
         step = 1 if not quick else 3
